@@ -20,6 +20,7 @@ BUILD = os.path.join(VERIF, ".build")
 REPO = "/repo"
 HCMODEL = os.path.join(LEAN, ".lake", "build", "bin", "hcmodel")
 HCIMPL = os.path.join(BUILD, "harness-target", "release", "hcimpl")
+HCIMPL_PATH = HCIMPL
 ALLOWED_AXIOMS = {"propext", "Classical.choice", "Quot.sound"}
 
 ENV = dict(os.environ)
@@ -44,13 +45,19 @@ def sh(cmd, cwd=None, timeout=None, env=None):
 def lake_build(targets, timeout=3000):
     """returns (ok, log)"""
     os.makedirs(BUILD, exist_ok=True)
+    global HCMODEL
     with FileLock(os.path.join(BUILD, "lake.lock")):
         rc, out = sh(["lake", "build"] + list(targets), cwd=LEAN, timeout=timeout)
+        src = os.path.join(LEAN, ".lake", "build", "bin", "hcmodel")
+        if rc == 0 and "hcmodel" in targets and os.path.exists(src):
+            # private copy: concurrent builds (other checks) may relink the shared binary
+            HCMODEL = _private_copy(src)
     return rc == 0, out
 
 
 def cargo_build(timeout=3000):
     """build the harness against /repo's current working tree; returns (ok, log)"""
+    global HCIMPL
     os.makedirs(BUILD, exist_ok=True)
     with FileLock(os.path.join(BUILD, "cargo.lock")):
         src = os.path.join(REPO, "Cargo.lock")
@@ -61,7 +68,21 @@ def cargo_build(timeout=3000):
             if not os.path.exists(dst) or "name = \"hcimpl\"" not in open(dst).read():
                 open(dst, "w").write(data)
         rc, out = sh(["cargo", "build", "--release", "--offline"], cwd=HARNESS, timeout=timeout)
+        src = os.path.join(BUILD, "harness-target", "release", "hcimpl")
+        if rc == 0 and os.path.exists(src):
+            HCIMPL = _private_copy(src)
     return rc == 0, out
+
+
+def _private_copy(src):
+    import atexit
+    import shutil
+    d = os.path.join(BUILD, "run", str(os.getpid()))
+    os.makedirs(d, exist_ok=True)
+    dst = os.path.join(d, os.path.basename(src))
+    shutil.copy2(src, dst)
+    atexit.register(lambda: shutil.rmtree(d, ignore_errors=True))
+    return dst
 
 
 class FileLock:
@@ -289,7 +310,7 @@ def first_diff(a, b):
     return min(len(a), len(b))
 
 
-def campaign(cases, oracle, max_report=5):
+def campaign(cases, oracle, max_report=5, canon=None):
     """oracle(case, impl_lines) -> None or a string describing the failure.
     returns dict(stats, violations, samples)"""
     res = run_pair(cases)
@@ -299,6 +320,8 @@ def campaign(cases, oracle, max_report=5):
     distinct = set()
     samples = []
     for c, li, lm in res:
+        if canon:
+            li, lm = [canon(x) for x in li], [canon(x) for x in lm]
         stats["lines"] += len(li)
         distinct.add(hashlib.md5("\n".join(li).encode()).hexdigest())
         for ln in c.lines:
@@ -324,7 +347,7 @@ def campaign(cases, oracle, max_report=5):
                     "replay": {"case": c.cid, "input_lines": c.lines, "impl_output": li, "model_output": lm,
                                "oracle_failure": ofail,
                                "theorem_or_correspondence": "correspondence hcmodel/hcimpl on this case",
-                               "replay_cmd": f"printf '%s\\n' <input_lines> | {HCIMPL}"},
+                               "replay_cmd": f"printf '%s\\n' <input_lines> | {HCIMPL_PATH}"},
                 })
         elif ofail:
             stats["oracle_failures"] += 1
@@ -334,7 +357,7 @@ def campaign(cases, oracle, max_report=5):
                 "found_input": True,
                 "sig": c.meta.get("sig", ""),
                 "replay": {"case": c.cid, "input_lines": c.lines, "impl_output": li, "oracle_failure": ofail,
-                           "replay_cmd": f"printf '%s\\n' <input_lines> | {HCIMPL}"},
+                           "replay_cmd": f"printf '%s\\n' <input_lines> | {HCIMPL_PATH}"},
             })
         if len(samples) < 3 and len(c.lines) > 2:
             samples.append({"case": c.cid, "input": c.lines[:12], "impl_output": li[:12]})
